@@ -57,6 +57,7 @@ class Merged:
         self.facts = []       # pc => res == value
         self.raising = []     # (pc, Exc, trace)
         self.paths = 0
+        self.havoc = []       # uncontracted calls met on some path
 
 
 def run_merged(eng, method, st, args, name, sort):
@@ -66,6 +67,7 @@ def run_merged(eng, method, st, args, name, sort):
     m = Merged(name, sort)
     for kind, s2, v in eng.run(ext, st.fork(), args):
         m.paths += 1
+        m.havoc += [h for h in s2.ghost.get("havoc", ()) if h not in m.havoc]
         pc = z3.And(list(s2.pc)[base:]) if len(s2.pc) > base else z3.BoolVal(True)
         if kind == "exc":
             m.raising.append((pc, v, list(s2.trace)))
@@ -120,6 +122,7 @@ def pair_obligations(eng, p1, p2, info):
         o = Obligation(f"{KEY}/{sc}/p0/{clause}", kind, facts, goal, KEY, sc, len(obs))
         o.meta["prefixes"] = (p1.name, p2.name)
         o.meta["first"] = "cvc5"
+        o.meta["havoc"] = [h for m in (uses or everything) for h in m.havoc]
         obs.append(o)
     # never-raises: every raising path is infeasible
     raising = [pc for m in everything for pc, _, _ in m.raising]
